@@ -1,12 +1,12 @@
 (** C10: the builders are total and acceptance implies safe use. *)
-From Vib Require Import Model.Base Model.Text Model.Lattice Model.Tokenizer Model.DictBuild Model.LexCsv Model.DefText Model.Mapper Check.TokCheck Check.C01Check Check.C06Check.
+From Vib Require Import Model.Base Model.Text Model.Lattice Model.Tokenizer Model.DictBuild Model.LexCsv Model.DefText Model.BigramText Model.Mapper Check.TokCheck Check.C01Check Check.C06Check.
 
 Inductive c10case :=
 | C10Struct (c : tokcase)                                   (* structured dictionary, possibly malformed: model vs implementation *)
 | C10Text (id : N) (file : N) (chardef_txt unk_txt matrix_txt lex_txt : str) (user_txt : option str)
           (built : N) (conn : list (list Z)) (ignore_space : bool) (space_res : N) (mgl : N)
           (obs : list sentobs) (sents : list (N * bool))     (* one text edit of one definition file: the whole build and the tokenization are compared with the text-level model *)
-| C10Bigram (id : N) (edited : N) (dual : bool) (built : N) (sents : list (N * bool))   (* the dictionary with a raw/dual connector from bigram files, valid or with one text edit *)
+| C10Bigram (id : N) (edited : N) (dual : bool) (built : N) (sents : list (N * bool)) (rtxt ltxt ctxt : str) (maxl maxr : N) (base_ok : bool)   (* the dictionary with a raw/dual connector from bigram files, valid or with one text edit *)
 | C10BigMap (id : N) (nl nr : N) (outcome : N) (sents : list (N * bool))   (* a VALID permutation of all ids of a connector with 65536 ids on one side: must be accepted *)
 | C10Map (id : N) (nl nr : N) (lmap rmap : list N) (outcome : N) (sents : list (N * bool)).   (* an arbitrary mapping sequence on an accepted dictionary *)  (* one text edit of one definition file: outcomes only *)
 
@@ -30,7 +30,7 @@ Definition c10_corr (c : c10case) : bool :=
       | Ok tc => tok_corr tc && (negb (built =? 0)%N || list_eqb (list_eqb Z.eqb) (tc_conn tc) conn)
       | Panic => false
       end
-  | C10Bigram _ _ _ _ _ => true
+  | C10Bigram _ _ _ built _ rtxt ltxt ctxt maxl maxr base_ok => negb base_ok || (bigram_build_code rtxt ltxt ctxt maxl maxr =? built)%N   (* text-level model of the three bigram files *)
   | C10Map _ nl nr l r out _ => (res_code (check_map (N.to_nat nl) (N.to_nat nr) l r) =? out)%N
   | C10BigMap _ _ _ out _ => (out =? 0)%N       (* the model accepts every valid permutation: c06_parse_accepts_iff *)
   end.
@@ -43,7 +43,7 @@ Definition c10_oracle_all (c : c10case) : bool :=
       negb (tc_built t =? 2)%N
       && forallb (fun so => negb (so_outcome so =? 2)%N) (tc_sents t)
   | C10Text _ _ _ _ _ _ _ built _ _ _ _ _ sents => negb (built =? 2)%N && forallb (fun s => negb (fst s =? 2)%N) sents
-  | C10Bigram _ _ _ built sents => negb (built =? 2)%N && forallb (fun s => negb (fst s =? 2)%N) sents
+  | C10Bigram _ _ _ built sents _ _ _ _ _ _ => negb (built =? 2)%N && forallb (fun s => negb (fst s =? 2)%N) sents
   | C10Map _ _ _ _ _ out sents => negb (out =? 2)%N && forallb (fun s => negb (fst s =? 2)%N) sents
   | C10BigMap _ _ _ out sents => negb (out =? 2)%N && forallb (fun s => negb (fst s =? 2)%N) sents
   end.
@@ -54,7 +54,7 @@ Definition c10_known (c : c10case) : bool :=
          negb (tc_built t =? 2)%N
          && with_dict t false (fun d o => forallb (fun so => negb (so_outcome so =? 2)%N || uncovered d so) (tc_sents t))
      | C10Text _ _ _ _ _ _ _ built _ _ _ _ _ sents => negb (built =? 2)%N && forallb (fun s => negb (fst s =? 2)%N || snd s) sents
-     | C10Bigram _ _ _ built sents => negb (built =? 2)%N && forallb (fun s => negb (fst s =? 2)%N || snd s) sents
+     | C10Bigram _ _ _ built sents _ _ _ _ _ _ => negb (built =? 2)%N && forallb (fun s => negb (fst s =? 2)%N || snd s) sents
      | C10Map _ _ _ _ _ out sents => negb (out =? 2)%N && forallb (fun s => negb (fst s =? 2)%N || snd s) sents
      | C10BigMap _ _ _ out sents => negb (out =? 2)%N && forallb (fun s => negb (fst s =? 2)%N || snd s) sents
      end.
@@ -63,7 +63,7 @@ Definition c10_nontrivial (c : c10case) : bool :=
   match c with
   | C10Struct t => negb (tc_built t =? 0)%N || existsb (fun so => Nat.leb 2 (length (so_tokens so))) (tc_sents t)
   | C10Text _ _ _ _ _ _ _ built _ _ _ _ _ _ => (built =? 1)%N
-  | C10Bigram _ e _ built _ => (built =? 1)%N || (e =? 0)%N
+  | C10Bigram _ e _ built _ _ _ _ _ _ _ => (built =? 1)%N || (e =? 0)%N
   | C10Map _ _ _ _ _ out _ => (out =? 1)%N
   | C10BigMap _ _ _ _ _ => true
   end.
